@@ -21,4 +21,5 @@ INVARIANT Dissipate
 INVARIANT NewmarkEquilibrium
 INVARIANT Family
 INVARIANT Affine
+INVARIANT Homogeneous
 INVARIANT EmitOK
